@@ -82,7 +82,7 @@ func registerStoreStubs(e *Engine) {
 		}
 		return tuple{"", mkError("invalid opaque string", nil)}
 	})
-	e.reg("io.ReadAll", func(fr *frame, args []value) value {
+	readAll := func(fr *frame, args []value) value {
 		r := args[0].(iface)
 		var out []value
 		for i := 0; i < 1<<16; i++ {
@@ -108,7 +108,9 @@ func registerStoreStubs(e *Engine) {
 			}
 		}
 		panic(unsupported{"io.ReadAll: reader never ends"})
-	})
+	}
+	e.reg("io.ReadAll", readAll)
+	e.reg("io/ioutil.ReadAll", readAll)
 }
 
 // ---- strings.Builder (uses unsafe in the real implementation) ----
